@@ -15,6 +15,8 @@ func init() { register("C15", checkC15) }
 
 func checkC15(c *Ctx) {
 	r := c.R
+	r.Rule("R03.1", "(shared with C03) emitted once, to the logger's destination: the routing decision function equals the documented one")
+	r.Rule("R09.1", "(shared with C09) the record's own time, message and attributes: no field of the pooled encoder is read before the current record wrote it (a zero time does not keep the previous record's)")
 	r.Rule("R02.3", "(shared with C02) each message is one record at the bridge's severity: the only payload that is not the finished buffer is the blank line of Print/Println, taken exactly for lvl == AlwaysLevel")
 	r.Rule("R16.3", "(shared with C16) the record's own time: every format branch of the timestamp printer passes the instant stored for the record, which WriteThru takes from the log/slog record")
 	r.Rule("R15.1", "level tables: mLogSlogLevelToLevel maps exactly the four standard log/slog levels to their namesakes; logsloglevel2Level agrees with it on those four; no foreign level becomes Panic/Fatal except the explicit constants (R12.5, shared)")
@@ -41,6 +43,9 @@ func checkC15(c *Ctx) {
 		c01Decision(c, p, m)
 		c02Newline(c, p, m)
 		c16Timestamp(c, p, m)
+		attrCopiesWhole(c, p, "R15.3")
+		c03Routing(c, p, m)
+		c09Pooled(c, p, m, "R09.1", feasibleModes)
 		c08Stores(c, p, m)
 	}
 	r.Rule("R08.1", "(shared with C08) a record carries all ITS attributes: nothing on the adapter's and the printer's path writes memory that outlives the call (a per-handler scratch list reused between records lets two overlapping Handle calls exchange their attributes)")
